@@ -25,6 +25,8 @@ func C05(r *ev.Run) {
 	r.Floor("quiescent-api-returns-checked", 5000)
 	r.Floor("recovery-replies-after-decision", 20)
 	r.Floor("net:synced-blocks", 100)
+	r.Floor("future-payloads-checked", 2000)
+	r.Floor("future-payloads-while-decided", 200)
 	r.Floor("runs:valset", 100)
 }
 
@@ -106,7 +108,31 @@ func makeProbe(c *vnet.Cluster, n *vnet.Node) (mon.Probe, bool) {
 		}
 		return -1
 	}
-	switch rng.Intn(9) {
+	switch rng.Intn(10) {
+	case 9:
+		// a transaction the node asked for in an earlier view of this height, not part of the current proposal
+		if v == 0 {
+			return mon.Probe{}, false
+		}
+		cur := map[vnet.H]bool{}
+		for _, x := range d.TransactionHashes {
+			cur[x] = true
+		}
+		var cand []vnet.H
+		for _, e := range c.Trace {
+			if e.Node == n.ID && e.Kind == vnet.KRequestTx && e.H == h && e.V < v {
+				for _, x := range e.Hs {
+					if !cur[x] && c.Universe[x] != nil {
+						cand = append(cand, x)
+					}
+				}
+			}
+		}
+		if len(cand) == 0 {
+			return mon.Probe{}, false
+		}
+		t := c.Universe[cand[rng.Intn(len(cand))]]
+		return mon.Probe{Class: "transaction-requested-in-earlier-view", Do: func() { n.SupplyTx(t) }}, true
 	case 0:
 		t := types[rng.Intn(len(types))]
 		return mon.Probe{Class: "index-out-of-range", Do: recv(mk(t, h, v, nv+rng.Intn(3), bodies(t, v)))}, true
@@ -248,7 +274,7 @@ func C11(r *ev.Run) {
 		}
 	})
 	for _, cl := range []string{"index-out-of-range", "past-height", "proposal-from-non-primary", "response-from-primary", "precommit-while-extension-off",
-		"unrequested-transaction", "timeout-for-other-epoch", "lower-view-PrepareRequest", "lower-view-PrepareResponse", "duplicate-PrepareResponse", "duplicate-Commit", "duplicate-ChangeView", "duplicate-PrepareRequest"} {
+		"unrequested-transaction", "transaction-requested-in-earlier-view", "timeout-for-other-epoch", "lower-view-PrepareRequest", "lower-view-PrepareResponse", "duplicate-PrepareResponse", "duplicate-Commit", "duplicate-ChangeView", "duplicate-PrepareRequest"} {
 		r.Floor("probes:"+cl, 50)
 	}
 	r.Floor("delivered-payloads-checked-for-mutation", 50000)
